@@ -240,6 +240,36 @@ CHECKS = [
          text="A uniform displacement with matching Dirichlet data gives zero stress on every face; solving the assembled TPSA system returns the translation with zero rotation "
               "and solid pressure (within 1e-8) on Cartesian, simplex and perturbed grids in 2D/3D with Dirichlet or mixed data.",
          note="Mixed-boundary systems with condition number >= 1e6 are excluded from the solve clause (counted); the linear solve is a black box; lambda > 0."),
+    dict(id="C24", level=MC, technique="TLC judges every transition recorded from real MixedDimensionalGrid histories against the reference state of spec/ref/MdGridRef.tla "
+         "(M_MdGrid) and trace-validates every edge against the mechanism model spec/sys/MdGrid.tla (T_MdGrid); design check of the model",
+         text="Histories of up to 4-5 add_subdomains / add_interface (both argument orders, co-dimension 0-2, rejected calls) / remove_subdomain / "
+              "replace_subdomains_and_interfaces calls over pools of tiny real grids of dimension 0-3 with mock mortar grids, and replacement / removal histories on real "
+              "fractured md-grids (update_mortar / update_primary / update_secondary run for real), are executed by path re-execution; after every call all public "
+              "listings and lookups are recorded and TLC checks: sorted unique listings, pair round trips, removal deletes exactly the subdomain's interfaces and boundary "
+              "grid, one boundary grid per positive-dimensional subdomain, data carried over on replacement, nothing dangling, in-family calls accepted.",
+         note="Interfaces are added between distinct present subdomains, at most one per pair. Replacing the 2D host of the X-configuration (raises in the mortar update) is "
+              "outside the family. Identity of the data dict objects is DRIFT only."),
+    dict(id="C26", level=MC, technique="TLC judges the eight mortar projection matrices (exact rationals) recorded after replacement histories against the per-side laws "
+         "(J_MortarMaps) and entrywise against the model spec/sys/MortarMaps.tla (T_MortarMaps, DRIFT); design check of the model",
+         text="On real md-grids with a fracture of integer length (I and X configurations) all histories of up to 2 (sampled 3rd) mortar / secondary / primary "
+              "replacements by uniform and non-uniform partitions through replace_subdomains_and_interfaces are executed; per mortar side TLC checks that integrated "
+              "projections preserve totals (column sums 1), averaged projections preserve constants (row sums 1) and mortar_to_X_int = (X_to_mortar_avg)^T and vice versa. "
+              "2D interfaces (match_2d on simplex grids) are judged by the laws only, in fixed point.",
+         note="Per side, as the property says. update_primary for 2D mortars and non-simplex 2D replacements are refused by the code (recorded, not judged). TLC runs with "
+              "-Xss64m (deep lazy rational products)."),
+    dict(id="C36", level=MC, technique="TLC enumerates slicer programs (spec/sys/Slicer.tla over spec/ref/SlicerRef.tla) incl. reuse of slicers across statements and judges every "
+         "Apply of real ArraySlicer objects / pp.ad.Projection trees against explicit projection matrices (J_Slicer)",
+         text="Programs of up to 3 (thorough 4) statements over up to 3 slicers (permutations, injections, restrictions, 7 constructor forms, transposes, chains, pending "
+              "left operands) applied to vectors, 2-D arrays, sparse matrices, AdArrays and scalars: each result equals the value of the expression as written with "
+              "explicit 0/1 matrices. The mechanism (one pending slot) is modelled and checked against the reference at design level.",
+         note="One known finding (a second pending operand overwrites the first). ndarray / AdArray left operands and other documented-unsupported forms are outside the family."),
+    dict(id="C45", level=MC, technique="TLC enumerates pairs (tree, rebuilt tree or single-site mutation) over all leaf kinds (spec/ref/OperatorKeysEnum.tla) and judges _key / hash "
+         "equality of the really built operators against StructEq (J_OperatorKeys)",
+         text="Structurally identical trees (built separately, cold and with warm key caches) must have equal keys and hashes; trees differing in one site (scalar value, array "
+              "entry / shape / format, variable name / domain / time or iterate shift, projection domain size / range size / indices / transposition, operation tag, "
+              "function, child order, association) must have different keys. A TLA transcription of every _key is compared as DRIFT.",
+         note="Four known findings (functions, domain kind, ProjectionList repr, abbreviated long index arrays). Two descriptions of the same projection matrix and post-build "
+              "mutation (Scalar.set_value) are not judged."),
 ]
 
 _NOT_BUILT = "check not built yet (planned, DESIGN.md section 10); not claimed until its commands are green on the unchanged tree"
